@@ -762,3 +762,34 @@ msg_e2e!(c04_e2e_server_hello_38, 0x02, 38, 6, |b, body, m| {
         vcover!(true, "C04.e2e.sh.cover.unsupported_version");
     }
 });
+
+/// Opaque bodies at realistic sizes: a 70 000-byte input with unconstrained contents, input length and
+/// `len` argument symbolic (Ok side of lengths beyond 16 bits).
+#[kani::proof]
+#[kani::unwind(6)]
+fn c04_opaque_body_large() {
+    let mut big: alloc::vec::Vec<u8> = alloc::vec::Vec::with_capacity(70_000);
+    unsafe { big.set_len(70_000); }
+    let big = ManuallyDrop::new(big);
+    let n: usize = kani::any();
+    kani::assume(n <= 70_000);
+    let b = &big[..n];
+    let len: usize = kani::any();
+    let r = tp::parse_tls_handshake_msg_serverkeyexchange(b, len);
+    if len > n {
+        vassert!(r.is_err(), "C04.ske.cut_off.no_value");
+    } else {
+        vassert!(r.is_ok(), "C04.ske.accepted");
+        if let Ok((rem, HS::ServerKeyExchange(k))) = &r {
+            vassert!(is_sub(b, k.parameters, 0, len) && is_sub(b, rem, len, n - len), "C04.ske.body_exact");
+            vcover!(len == 65_536, "C04.ske.cover.body_of_65536_bytes");
+        }
+    }
+    let r = tp::parse_tls_handshake_msg_newsessionticket(b, len);
+    if len >= 4 && len <= n {
+        vassert!(matches!(&r, Ok((rem, HS::NewSessionTicket(t))) if is_sub(b, t.ticket, 4, len - 4) && is_sub(b, rem, len, n - len)), "C04.nst.ticket_exact");
+        vcover!(len == 70_000, "C04.nst.cover.ticket_of_69996_bytes");
+    } else {
+        vassert!(r.is_err(), "C04.nst.cut_off.no_value");
+    }
+}
